@@ -158,6 +158,8 @@ type World struct {
 	clock int // logical time: advances with every call into a node and every applied entry
 	seq   int
 	healSeq int
+	hostile  bool
+	phaseEnd int
 	Trace []Action
 	Log   []string
 	keepLog bool
